@@ -120,7 +120,9 @@ func TestCheck(t *testing.T) {
 	}
 
 	// 5. render functions.
-	list = append(list, sequenceScenario(rep, pick(allValues, func(v val) bool { return v.name == "o-nested" || v.name == "a-mixed" || v.name == "s-abc" || v.name == "null" })))
+	list = append(list, sequenceScenario(rep, pick(allValues, func(v val) bool {
+		return v.name == "o-nested" || v.name == "a-mixed" || v.name == "s-abc" || v.name == "null"
+	})))
 	list = append(list, baseScenario(rep), metadataScenario(rep), patchSetScenario(rep))
 
 	// 6. compose level.
